@@ -1561,6 +1561,12 @@ namespace bloch::compiler {
                                  "'" + fn->name + "' is already declared in this scope");
             }
             declareFunction(fn->name);
+            // Record the signature up front so that calls are checked the same way wherever the
+            // callee is declared (after its caller, or after a class whose methods use it).
+            FunctionInfo info;
+            info.returnType = typeFromAst(fn->returnType.get());
+            for (auto& p : fn->params) info.paramTypes.push_back(typeFromAst(p->type.get()));
+            m_functionInfo[fn->name] = info;
         }
         for (auto& cls : program.classes)
             if (cls)
